@@ -169,6 +169,21 @@ func (n *Node) Apply(e *gen.Edit) error {
 		}
 		tgt.Moved = true
 		c.Arr = out
+	case "arr.before": // move element J right before element I
+		if c.Kind != "arr" || e.I >= len(c.Arr) || e.J >= len(c.Arr) || e.I == e.J {
+			return ErrPath
+		}
+		next, tgt := c.Arr[e.I], c.Arr[e.J]
+		rest := append(append([]*Node(nil), c.Arr[:e.J]...), c.Arr[e.J+1:]...)
+		var out []*Node
+		for _, x := range rest {
+			if x == next {
+				out = append(out, tgt)
+			}
+			out = append(out, x)
+		}
+		tgt.Moved = true
+		c.Arr = out
 	case "arr.front":
 		if c.Kind != "arr" || e.I >= len(c.Arr) {
 			return ErrPath
